@@ -44,11 +44,13 @@ const (
 	opAny
 	opMapViews
 	opGetAll // Has and Get on every field, populated or not (empty read-only views)
+	opSharedMethodsSize    // Size through ONE protoiface.Methods value shared by all tasks
+	opSharedMethodsMarshal // Marshal through that same shared Methods value
 	numOps
 )
 
 var opNames = []string{"Size", "Marshal", "MarshalDeterministic", "MarshalAppend", "Methods.Size", "Methods.Marshal", "Has/Get/views", "Range", "WhichOneof",
-	"Equal(equal peer)", "Equal(unequal peer)", "Clone(from)", "Merge(from)", "protojson.Marshal", "prototext.Marshal", "String", "getters", "MessageOf(struct reflection)", "anypb.New", "map/list view Range/Has/Get", "Has/Get on every field incl. unpopulated"}
+	"Equal(equal peer)", "Equal(unequal peer)", "Clone(from)", "Merge(from)", "protojson.Marshal", "prototext.Marshal", "String", "getters", "MessageOf(struct reflection)", "anypb.New", "map/list view Range/Has/Get", "Has/Get on every field incl. unpopulated", "shared Methods.Size", "shared Methods.Marshal"}
 
 type opInst struct {
 	Kind int
@@ -57,6 +59,10 @@ type opInst struct {
 }
 
 type opEnv struct {
+	// methods is what ProtoMethods() returned once for the message the
+	// operations run on (the shared message for the tasks, the private copy for
+	// the sequential reference); callers may keep and re-use that value.
+	methods     *protoiface.Methods
 	equalPeer   proto.Message
 	unequalPeer proto.Message
 	mi          *protoimpl.MessageInfo
@@ -172,6 +178,17 @@ func doOp(m proto.Message, op opInst, env *opEnv) (res string) {
 		return fmt.Sprintf("%s %x", a.TypeUrl, a.Value)
 	case opGetAll:
 		return getAll(m.ProtoReflect(), 0)
+	case opSharedMethodsSize:
+		if env.methods == nil || env.methods.Size == nil {
+			return "no fast path"
+		}
+		return fmt.Sprint(env.methods.Size(protoiface.SizeInput{Message: m.ProtoReflect()}).Size)
+	case opSharedMethodsMarshal:
+		if env.methods == nil || env.methods.Marshal == nil {
+			return "no fast path"
+		}
+		out, err := env.methods.Marshal(protoiface.MarshalInput{Message: m.ProtoReflect(), Flags: protoiface.MarshalDeterministic})
+		return fmt.Sprintf("%x %v", out.Buf, err)
 	case opMapViews:
 		var parts []string
 		r := m.ProtoReflect()
@@ -397,6 +414,9 @@ func runReaders(c *simrun.Ctx) *simrun.Violation {
 	if rt, err := protoregistry.GlobalTypes.FindMessageByName(md.FullName()); err == nil {
 		env.mi, _ = rt.(*protoimpl.MessageInfo)
 	}
+	env.methods = shared.ProtoReflect().ProtoMethods()
+	envSeq := *env // the sequential reference uses a Methods value of its own
+	envSeq.methods = private.ProtoReflect().ProtoMethods()
 	nTasks := 2 + t.Draw("ntasks", 5)
 	tasks := make([]*readerTask, nTasks)
 	ordBase := uint64(t.Draw("ordbase", 1<<30))
@@ -465,7 +485,7 @@ func runReaders(c *simrun.Ctx) *simrun.Violation {
 	for i, rt := range tasks {
 		expected[i] = make([]string, len(rt.prog))
 		for j, op := range rt.prog {
-			expected[i][j] = doOp(private, op, env)
+			expected[i][j] = doOp(private, op, &envSeq)
 			st.Add("op_"+opNames[op.Kind], 1)
 		}
 	}
